@@ -178,6 +178,44 @@ func c03Splice(p *core.Prog, r *core.Run, m *echModel, pre string) {
 					}
 					notMarker := core.HasFact(p.Facts(c.Block()), "!=", `.*\.Type`, "64768")
 					r.Check(pre+".S1", "process:copy-inner-extension", forward && notMarker, p.InstrPos(c), "every extension of the decrypted hello other than the marker (%v) is appended itself, at the position of a single forward range (%v)", notMarker, forward)
+					// ... every one: each way round the loop either passes this append
+					// or is the marker's way (no other extension is left out)
+					if phi := forwardCounter(idx.Val); phi != nil {
+						hdr := phi.Block()
+						body := core.Loops(fn)[hdr]
+						skipped := ""
+						for _, pr := range hdr.Preds {
+							if !body[pr] {
+								continue
+							}
+							viaAppend := pr == c.Block() || c.Block().Dominates(pr)
+							viaMarker := false
+							for _, f := range p.EdgeFacts(pr, hdr) {
+								if f.Op == "==" && f.R != nil && f.R.Name == "64768" && f.L.Op == "field" && f.L.Name == "Type" {
+									viaMarker = true
+								}
+							}
+							if !viaAppend && !viaMarker {
+								// a latch that merges several ways: look one level up
+								ok := len(pr.Preds) > 0 && len(pr.Instrs) <= 2
+								for _, pp := range pr.Preds {
+									via := pp == c.Block() || c.Block().Dominates(pp)
+									for _, f := range p.EdgeFacts(pp, pr) {
+										if f.Op == "==" && f.R != nil && f.R.Name == "64768" && f.L.Op == "field" && f.L.Name == "Type" {
+											via = true
+										}
+									}
+									if !via {
+										ok = false
+									}
+								}
+								if !ok {
+									skipped = p.InstrPos(pr.Instrs[len(pr.Instrs)-1])
+								}
+							}
+						}
+						r.Check(pre+".S1", "process:copy-every-extension", skipped == "", p.InstrPos(c), "no way round the loop over the decrypted hello's extensions leaves a non-marker extension out (one does, at %q)", skipped)
+					}
 				}
 			}
 		}
